@@ -419,7 +419,8 @@ func unpackEngine(c *Ctx) {
 		// (2) filters: post id == reference of the filtered fileset; reject iff offending entry (C12)
 		for fi := 0; fi < 3; fi++ {
 			fstr := unpackFilterStrings[c.Intn(len(unpackFilterStrings))]
-			hdrs, eff := c.filesetToHdrs(fsx, hdrOpts{})
+			// entry orders matter here too: a directory entry that follows its children replaces a conjured record
+			hdrs, eff := c.filesetToHdrs(fsx, hdrOpts{dirsAfterKids: fi > 0, dotSlash: fi == 2})
 			op := fmt.Sprintf("unpack tar %s pax none %s", fstr, hdrsTok(hdrs))
 			r := unpackExec(c, op)
 			parts := strings.SplitN(r, "\x00", 2)
@@ -479,7 +480,11 @@ func unpackEngine(c *Ctx) {
 		}
 		// structural hostility: duplicates, absolute names, .. names, children of files, odd types, 'g' headers
 		hh := append([]RawHdr(nil), hdrs...)
-		switch c.Intn(8) {
+		hfilt := lossless
+		if c.Chance(1, 2) { // hostile structure under an altering / ejecting filter: the two buckets then differ
+			hfilt = unpackFilterStrings[c.Intn(len(unpackFilterStrings))]
+		}
+		switch c.Intn(10) {
 		case 0:
 			hh = append(hh, hh[c.Intn(len(hh))])
 		case 1:
@@ -497,8 +502,17 @@ func unpackEngine(c *Ctx) {
 			hh = append(hh, RawHdr{Name: "zfile", Typeflag: '0'}, RawHdr{Name: "zfile/kid", Typeflag: '0'})
 		case 7:
 			hh = nil
+		case 8, 9:
+			// an entry a filter may eject (device / setid), repeated after a later-sorting entry
+			hfilt = []string{"uid=follow,gid=follow,mtime=follow,sticky=follow,setid=follow,dev=ignore", "uid=0,gid=follow,mtime=follow,sticky=follow,setid=ignore,dev=ignore", lossless}[c.Intn(3)]
+			dev := RawHdr{Name: []string{"null", "a/null", "0dev"}[c.Intn(3)], Typeflag: []byte{'3', '4', '6'}[c.Intn(3)], Mode: 0666, Maj: 1, Min: 3}
+			hh = append(hh, dev, RawHdr{Name: "zzz", Typeflag: '0', Mode: 0644})
+			if c.Chance(1, 2) {
+				hh = append(hh, RawHdr{Name: "a/zz", Typeflag: '0', Mode: 04755})
+			}
+			hh = append(hh, dev)
 		}
-		c.Emit2(fmt.Sprintf("unpack tar %s - none %s", lossless, hdrsTok(hh)), unpackExec)
+		c.Emit2(fmt.Sprintf("unpack tar %s - none %s", hfilt, hdrsTok(hh)), unpackExec)
 		c.H("hostile")
 	}
 	_ = sort.Strings
